@@ -101,6 +101,25 @@ def run_generator(in_dir, out_dir):
     return None
 
 
+def run_generator_twice(in_dir, out_dir, rewrite):
+    """One ProtocolCodeGenerator object generates the tree in in_dir, then `rewrite()` changes the tree on disk and the
+    SAME object generates again.  -> ('first-failed', exc) | ('returned', None) | ('raised', exc) for the second run."""
+    gen = loader.generator()
+    buf = io.StringIO()
+    with contextlib.redirect_stdout(buf):
+        try:
+            g = gen.ProtocolCodeGenerator(Path(in_dir))
+            g.generate(Path(out_dir) / "first")
+        except Exception as e:  # noqa: BLE001
+            return ("first-failed", e)
+        rewrite()
+        try:
+            g.generate(Path(out_dir) / "second")
+        except Exception as e:  # noqa: BLE001
+            return ("raised", e)
+    return ("returned", None)
+
+
 class Loaded:
     """Result for one program: .cls (generated class) or .gen_error / .import_error"""
 
